@@ -3,6 +3,7 @@ CONSTANTS Streams <- MediumQ
   ReadMax = 2048
   MaxReads = 3
   Fails <- NoFail
+  Swaps <- NoSwap
   Cuts <- NoCuts
   D = 0
 INIT Init
